@@ -130,6 +130,17 @@ func (cls *CachedLocations) Open(ctx *Context, sys *System, name string, check b
 
 	loc, dead := cls.expire(ctx, sys, name, false)
 
+	if loc == nil && !dead {
+		if cl, have := cls.locs[name]; have {
+			// Another request has made the entry and is still
+			// loading the location.  Wait for that load (in
+			// Get) instead of replacing the entry and loading a
+			// second instance.
+			cls.Unlock()
+			return cl.Get(ctx, sys, name, check)
+		}
+	}
+
 	var err error
 	if loc == nil || dead {
 		Log(INFO, ctx, "CachedLocations.Open", "name", name, "cached", "empty")
